@@ -54,9 +54,15 @@ def _model_check(ctx, cfg, workers, timeout):
 
 def run(ctx):
     q = ctx.quick
+    # the drivers are built while TLC model-checks (the shared build trees are behind file locks that other checks
+    # may hold for minutes)
+    import concurrent.futures as cf
+    pool = cf.ThreadPoolExecutor(2)
+    fut_exe = None if ctx.replay else pool.submit(lib.build_driver, "c13_norm")
+    fut_san = None if (ctx.replay or q) else pool.submit(lib.build_driver, "c13_norm", None, False, False, False, (), True)
     # 1. model check of the specification itself
     if q:
-        _model_check(ctx, "MC_Norm", 4, 400)                # chains <= 2, one view, one tangential position
+        _model_check(ctx, "MC_Norm", 4, 600)                # chains <= 2, one view, one tangential position
     else:
         _model_check(ctx, "MC_Norm_thorough", 8, 1100)      # chains <= 3, two tangential positions
         _model_check(ctx, "MC_Norm_views", 8, 1100)         # two views: the groupings that relate views
@@ -64,7 +70,7 @@ def run(ctx):
     if ctx.replay:
         traces = [ctx.replay]
     else:
-        exe = lib.build_driver("c13_norm")
+        exe = fut_exe.result()
         traces = []
         seeds = [ctx.seed] if q else [ctx.seed, ctx.seed + 100]
         for sd in seeds:
@@ -75,7 +81,7 @@ def run(ctx):
         if not q:
             # the same driver against the ASan/UBSan-instrumented STIR libraries: an access outside an array inside
             # the normalisation classes stops the run and leaves an Abort line, which the specification never explains
-            exes = lib.build_driver("c13_norm", santree=True)
+            exes = fut_san.result()
             for mode in ("exact", "att"):
                 t = os.path.join(ctx.work, "%s-san.ndjson" % mode)
                 rc, out = lib.run_driver(exes, [mode, t, 0], env={"VERIF_SEED": str(ctx.seed + 7)}, timeout=1500, allow_fail=True)
@@ -83,6 +89,7 @@ def run(ctx):
                     with open(t, "a") as f:
                         f.write(json.dumps({"e": "Abort", "rc": rc, "why": out[-400:]}) + "\n")
                 traces.append(t)
+    pool.shutdown(wait=False)
     # 3. validate (chunks in parallel)
     chunks = []
     for t in traces:
